@@ -1029,6 +1029,10 @@ class AbstractExcelInPython(ABC):
             # a date is its serial number, the time of day its fraction
             value = (value - datetime.datetime(1899, 12, 30)).total_seconds() / 86400
 
+        if isinstance(value, int) and abs(value) >= 10 ** 15:
+            # a whole number of 16 or more digits is written like the double it is for a spreadsheet (1E+15), as the float 1e15 is
+            value = float(value)
+
         if isinstance(value, float) and value.is_integer() and abs(value) < 1e15:
             return str(int(value))
 
